@@ -52,10 +52,23 @@ def to_ttl_iter(T, rnd):
             group.append(T[j])
             j += 1
         out = [term(s)]
-        for n, (_s, p2, o2) in enumerate(group):
+        # consecutive statements with the same predicate become an object list: 'p o1 , o2', on one line or broken after each comma
+        runs = []
+        for (_s, p2, o2) in group:
+            if runs and runs[-1][0] == p2 and rnd.random() < .7:
+                runs[-1][1].append(o2)
+            else:
+                runs.append([p2, [o2]])
+        for n, (p2, objs) in enumerate(runs):
             pt = "a" if (p2 == M.RDF_TYPE and rnd.random() < .5) else term(("IRI", p2))
-            out.append(("  " if n else "") + pt + " " + term(o2) + (" ;" if n < len(group) - 1 else " ."))
-        if rnd.random() < .5:
+            end = " ;" if n < len(runs) - 1 else " ."
+            if len(objs) > 1 and rnd.random() < .6:
+                out.append(("  " if n else "") + pt + " " + term(objs[0]) + " ,")
+                for m, o2 in enumerate(objs[1:]):
+                    out.append("      " + term(o2) + (" ," if m < len(objs) - 2 else end))
+            else:
+                out.append(("  " if n else "") + pt + " " + " , ".join(term(o2) for o2 in objs) + end)
+        if rnd.random() < .5 and not any(x.endswith(" ,") for x in out):
             lines.append(" ".join(x.strip() for x in out))
         else:
             lines.append(out[0] + " " + out[1])
@@ -708,6 +721,16 @@ def check_c19(out, tier):
         c = gen.case("c19c%d" % i, T, **cfg)
         c["targetsFile"] = True
         c["endpoint"] = i % 4 != 3
+        cases.append(c)
+    for i in range(8 * k):        # a list of files / of zip archives, one class per part: the parts are read in list order
+        T = []
+        for j in range(4):
+            for x in range(2):
+                n = M.iri(M.EX + "z%d_%d" % (j, x))
+                T += [(n, M.RDF_TYPE, M.iri(M.EX + "Z%d" % j)), (n, M.EX + "p%d" % j, M.lit("v"))]
+        c = gen.case("c19z%d" % i, T, **gen.switches(rnd))
+        c["channel"] = "zips" if i % 2 == 0 else "files"
+        c["parts"] = 4
         cases.append(c)
     for i in range(6 * k):        # the graph parsed by rdflib (a Turtle / RDF-XML text, a Graph object): a recorded finding
         T = gen.general_graph(rnd, bnodes=False, max_nodes=6)
